@@ -18,7 +18,7 @@ def gen_universes(ctx, tier, label="F generate multi-file universes"):
 @pipeline
 def c02(ctx: Ctx):
     ctx.assumptions = [
-        "D: spec/LoaderImpl.tla models the resolver as written (fixed walk order, in-progress set keyed by the raw ref string, waiters, chains, unvisited positions); MC_C02 checks it against the contract on all 6.6k universes (strict agreement on clean ones, listed deviations reproduced); the trace spec compares every observed site with the model's prediction (fidelity)",
+        "D: spec/LoaderImpl.tla models the resolver as written (fixed walk order, in-progress set keyed by the raw ref string, waiters, chains; the pre-repair walk that skipped positions is kept as a pinned variant); MC_C02 checks it against the contract on all 6.6k universes (strict agreement on clean ones, listed deviations reproduced); the trace spec compares every observed site with the model's prediction (fidelity)",
         "TLC; spec/Layout.tla: URI resolution of a ref against the file that contains it ('.'/'..' normalisation), JSON pointer into components, chains followed to a concrete object",
         "harness realiser harness/c02.go: universes written as JSON files in a temp dir (every concrete object carries a unique x-id extension) and loaded through LoadFromFile (absolute / relative) or LoadFromDataWithPath; projector: generic reflection walk over every *Ref value of the returned document",
         "one reference graph per universe (9 component kinds x their child sites x 20 shapes x 3 path spellings x 2 root positions x 3 entry points); JSON files only",
@@ -34,6 +34,7 @@ def c02(ctx: Ctx):
         # D: the resolver model (LoaderImpl) vs the contract on every universe; must agree exactly on clean universes
         # and reproduce the listed deviations (conflation, pure cycles)
         ctx.tlc("MC_C02", "MC_C02.cfg", label="D LoaderImpl vs Designated on all universes (strict on clean, reproduces listed deviations)")
+        ctx.tlc("MC_C02", "MC_C02_pinned.cfg", expect_violation=True, label="D pinned resolver (before the repairs of F-C02-1): positions never visited")
         cases = gen_universes(ctx, ctx.tier)
         ctx.exhaustive = True
     ctx.build_driver()
